@@ -30,6 +30,24 @@ def generate(tier, seed, shard, nshards):
     rng = random.Random(f'C09/{seed}/{shard}')
     for k in range(N_CIRC[tier] // nshards):
         stratum = ['unrelated', 'exact-coincidence', 'rounding-coincidence', 'no-periodic', 'near-coincidence'][k % 5]
+        if k % 25 == 24:
+            # three sinusoidal sources 0.8 resolutions apart: the middle one coincides (within the resolution) with both of its
+            # neighbours, which do not coincide with each other - 'each counted once' has to hold all the same
+            f0 = G.value(rng, 0, 2)
+            for _ in range(20):
+                cd = GC.random_circuit(rng, max_nodes=4, max_comps=6, passives=['resistor', 'resistor', 'conductance'], n_reactive=(0, 1),
+                                       sources=['ac_voltage_source', 'ac_current_source'], n_sources=(3, 3), freqs=[f0], lossy=0.0, ground_prob=0.8)
+                srcs_ = [c for c in cd['components'] if c['ctor'].startswith('ac_')]
+                if len(srcs_) == 3:
+                    break
+            else:
+                continue
+            order = [0, 1, 2]
+            rng.shuffle(order)
+            for j, c in zip(order, srcs_):
+                c['args']['w'] = f0 + j * 0.8 * W_RES
+            yield {'circuit': cd, 'w_max': 2 * f0, 'stratum': 'chained-coincidence', 'w0': f0}
+            continue
         if stratum == 'near-coincidence':
             # an AC source close to a harmonic: either inside the resolution (one merged line, both sources active) or clearly
             # outside it but closer than w_resolution*w0 (two separate lines, the harmonic must not leak into the AC line)
@@ -177,7 +195,40 @@ def custom_resolution_clause(ctx, prefix, cd, circ, w_max):
             ctx.count('custom_resolution_lines_compared')
 
 
+def counted_once_clause(case, ctx, prefix):
+    """every source (of non-zero amplitude) is switched on in the network of exactly one analysed frequency"""
+    from CircuitCalculator.Circuit.circuit import frequency_components, transform
+    cd = case['circuit']
+    circ = call(circdesc.to_lib, cd)
+    ws = call(frequency_components, circ, case['w_max']) if not raised(circ) else circ
+    nets = call(transform, circ, ws) if not raised(ws) else ws
+    if raised(nets):
+        ctx.violation(f'{prefix}/chained-coincidence/raised/{nets.key}', nets.text, {})
+        return
+    ctx.count('circuits_judged'); ctx.count('stratum_chained-coincidence')
+    ctx.evaluated(circdesc.signature(cd, ('chained-coincidence', len(ws))), True)
+    for c in cd['components']:
+        if not c['ctor'].startswith('ac_'):
+            continue
+        amp = c['args'].get('V', c['args'].get('I', 0))
+        if amp == 0:
+            continue
+        on = []
+        for w, net in zip(ws, nets):
+            el = net[c['id']].element
+            val = el.V if 'voltage' in c['ctor'] else el.I
+            if np.isfinite(complex(val)) and abs(complex(val)) > 0:
+                on.append(float(w))
+        ctx.count('sources_counted')
+        if len(on) != 1:
+            ctx.violation(f'{prefix}/source-counted-on-{len(on)}-lines/chained-coincidence',
+                          f'source {c["id"]!r} (w = {c["args"]["w"]!r}) is switched on in the networks of the analysed frequencies {on!r}; analysed: {[float(x) for x in ws]!r}', {})
+            return
+
+
 def judge(case, ctx, prefix='C09'):
+    if case['stratum'] == 'chained-coincidence':
+        return counted_once_clause(case, ctx, prefix)
     from CircuitCalculator.Circuit.circuit import frequency_components
     from CircuitCalculator.Circuit.solution import TimeDomainSolution, FrequencyDomainSolution
     cd, w_max = case['circuit'], case['w_max']
